@@ -29,11 +29,12 @@ type cexFile struct {
 	PkgDir   string     `json:"pkgdir"`
 	Params   map[string]int64 `json:"params"`
 	Sched    []schedEv        `json:"schedule,omitempty"`
+	Points   []string         `json:"points,omitempty"`
 }
 
 func writeCounterexample(dir string, v *Violation, r *entryResult, lc LoadConfig, rtNative string, nativeExtra []string, l *Loaded) {
 	cf := cexFile{Property: v.Property, Entry: v.Entry, Label: v.Label, Kind: v.Kind, Msg: v.Msg,
-		Inputs: v.Inputs, Trail: v.Trail, Observes: v.Observes, PkgDir: lc.PkgDir, Params: r.Opts.Params, Sched: v.Sched}
+		Inputs: v.Inputs, Trail: v.Trail, Observes: v.Observes, PkgDir: lc.PkgDir, Params: r.Opts.Params, Sched: v.Sched, Points: v.Points}
 	b, _ := json.MarshalIndent(cf, "", " ")
 	os.WriteFile(filepath.Join(dir, "counterexample.json"), b, 0o644)
 
